@@ -12,7 +12,9 @@
 //!     One thread exits while a user thread-local still holds Ccs. `order` = `user_first` (the
 //!     user thread-local is destroyed BEFORE the collector's POSSIBLE_CYCLES) or `pc_first`
 //!     (AFTER it). Run in a child process so that a crash is attributed to the scenario.
-//!     One line:  td order=<o> content=<c> pc_alive_at_user_dtor=<bool> ... ok|BAD ...
+//!     One line:  td order=<o> content=<c> pc_alive_at_user_dtor=<bool> ... notes=<..> ok|BAD ...
+//!     `--strict-model` turns the model-correspondence notes (stale marks / links on LEAKED objects
+//!     after the buffer's destructor) into failures.
 
 use std::cell::{Cell, RefCell};
 use std::hash::Hasher;
@@ -399,6 +401,12 @@ fn cmd_run(args: &[String]) -> i32 {
                     .join()
                     .map_err(|_| "thread panicked (alone)".to_string());
                 let mut problems: Vec<String> = Vec::new();
+                let mut stats = (0u64, 0u64, 0u64);
+                if let Ok(t) = &together[i] {
+                    if let Some(last) = t.trace.last() {
+                        stats = (t.created, last[1], last[4]);
+                    }
+                }
                 let (h1, h2, nops) = match (&together[i], &alone) {
                     (Ok(t), Ok(a)) => {
                         problems.extend(t.problems.iter().cloned());
@@ -435,7 +443,12 @@ fn cmd_run(args: &[String]) -> i32 {
                     bad += 1;
                     format!("BAD {}", problems.join(";").replace(' ', "_"))
                 };
-                writeln!(out, "thr n={} round={} prog={} ops={} hash={:016x} alone={:016x} {}", n, round, i, nops, h1, h2, verdict).unwrap();
+                writeln!(
+                    out,
+                    "thr n={} round={} prog={} ops={} created={} collections={} finalized={} hash={:016x} alone={:016x} {}",
+                    n, round, i, nops, stats.0, stats.1, stats.2, h1, h2, verdict
+                )
+                .unwrap();
             }
         }
     }
@@ -677,6 +690,7 @@ fn cmd_teardown(args: &[String]) -> i32 {
         eprintln!("usage: threads teardown user_first|pc_first unique|buffered|cycle|garbage_buffered|mixed|reenter");
         return 2;
     }
+    let strict_model = args.iter().any(|a| a == "--strict-model");
     lp::quarantine(true);
     let (order_s, content_s) = (order.to_string(), content.to_string());
     let buffered_at_exit = Arc::new(AtomicUsize::new(0));
@@ -775,11 +789,20 @@ fn cmd_teardown(args: &[String]) -> i32 {
         // with the collector alive a dropped value's box is always released (C03 promptness)
         problems.push(format!("{dropped_not_freed}_values_dropped_but_box_not_freed"));
     }
+    // Correspondence with the model's `teardown_pc_clears` (after the buffer's destructor no object
+    // is marked or linked). The model's condition is STRONGER than what C19 asks for (no crash, no
+    // double drop, no access to freed memory): a stale mark or link on a leaked object is never read
+    // again, because every list operation goes through the failed `try_with`. It is therefore
+    // reported as a note (a failure only with `--strict-model`).
+    let mut notes: Vec<String> = Vec::new();
     if leaked_marked != 0 {
-        problems.push(format!("{leaked_marked}_leaked_objects_still_marked_PossibleCycles_after_teardown"));
+        notes.push(format!("{leaked_marked}_leaked_objects_still_marked_PossibleCycles_after_teardown"));
     }
     if leaked_linked != 0 {
-        problems.push(format!("{leaked_linked}_leaked_objects_still_have_list_links_after_teardown"));
+        notes.push(format!("{leaked_linked}_leaked_objects_still_have_list_links_after_teardown"));
+    }
+    if strict_model {
+        problems.append(&mut notes);
     }
     if matches!(content, "unique" | "buffered") && leaked != 0 {
         problems.push(format!("{leaked}_objects_leaked_although_none_is_in_a_cycle"));
@@ -798,7 +821,7 @@ fn cmd_teardown(args: &[String]) -> i32 {
     }
     let verdict = if problems.is_empty() { "ok".to_string() } else { format!("BAD {}", problems.join(";")) };
     println!(
-        "td order={} content={} pc_alive_at_user_dtor={} buffered_at_thread_end={} count_in_user_dtor_before={} count_in_user_dtor_after={} nodes={} dropped={} leaked={} leaked_marked={} leaked_linked={} double_drops={} dropped_not_freed={} reenter_new_ok={} alloc_errors={} quarantined={} written_after_free={} {}",
+        "td order={} content={} pc_alive_at_user_dtor={} buffered_at_thread_end={} count_in_user_dtor_before={} count_in_user_dtor_after={} nodes={} dropped={} leaked={} leaked_marked={} leaked_linked={} double_drops={} dropped_not_freed={} reenter_new_ok={} alloc_errors={} quarantined={} written_after_free={} notes={} {}",
         order,
         content,
         pc_alive,
@@ -816,6 +839,7 @@ fn cmd_teardown(args: &[String]) -> i32 {
         alloc_errors,
         quarantined,
         waf,
+        if notes.is_empty() { "-".to_string() } else { notes.join(";") },
         verdict
     );
     (!problems.is_empty()) as i32
